@@ -193,4 +193,61 @@ theorem lowerS_h {C : Ctx} (fs : List Fr) (b : Nat) : ∀ (is : List FI) (st : L
         subst h1
         exact ih st' _ res hc
 
+/-! ## the shape of the code of structured instructions -/
+
+/-- the code emitted at the `end` of a block -/
+def blockTail (id h : Nat) (bt : Option Ty) (body : List FI) (rh : Option Nat) : List SymOp :=
+  match rh with
+  | some h' => emitDrop (dropRange ⟨.block, id, h, arity bt⟩ true h') ++
+      (if targetsS 0 body then [.br ⟨.cont, id⟩, .label ⟨.cont, id⟩] else [])
+  | none => [.label ⟨.cont, id⟩]
+
+theorem lowerI_block (fs : List Fr) (h next : Nat) (bt : Option Ty) (body : List FI) :
+    (lowerI fs h next (.block bt body)).ops =
+      (lowerS (⟨.block, next + 1, h, arity bt⟩ :: fs) h (next + 1) body).ops ++
+        blockTail (next + 1) h bt body (lowerS (⟨.block, next + 1, h, arity bt⟩ :: fs) h (next + 1) body).h := by
+  simp only [lowerI, blockTail]
+  cases (lowerS (⟨.block, next + 1, h, arity bt⟩ :: fs) h (next + 1) body).h <;> rfl
+
+def iteMid (F : Fr) (id : Nat) (rh : Option Nat) : List SymOp :=
+  match rh with
+  | some h' => emitDrop (dropRange F false h') ++ [.br ⟨.cont, id⟩, .label ⟨.els, id⟩]
+  | none => [.label ⟨.els, id⟩]
+
+def iteTail (F : Fr) (id : Nat) (rh : Option Nat) : List SymOp :=
+  match rh with
+  | some h' => emitDrop (dropRange F true h') ++ [.br ⟨.cont, id⟩, .label ⟨.cont, id⟩]
+  | none => [.label ⟨.cont, id⟩]
+
+theorem lowerI_ite (fs : List Fr) (h next : Nat) (bt : Option Ty) (th el : List FI) :
+    (lowerI fs h next (.ite bt th el)).ops =
+      [.brIf ⟨.header, next + 1⟩ ⟨.els, next + 1⟩ none, .label ⟨.header, next + 1⟩] ++
+        (lowerS (⟨.ite, next + 1, h - 1, arity bt⟩ :: fs) (h - 1) (next + 1) th).ops ++
+        iteMid ⟨.ite, next + 1, h - 1, arity bt⟩ (next + 1)
+          (lowerS (⟨.ite, next + 1, h - 1, arity bt⟩ :: fs) (h - 1) (next + 1) th).h ++
+        (lowerS (⟨.ite, next + 1, h - 1, arity bt⟩ :: fs) (h - 1)
+          (lowerS (⟨.ite, next + 1, h - 1, arity bt⟩ :: fs) (h - 1) (next + 1) th).next el).ops ++
+        iteTail ⟨.ite, next + 1, h - 1, arity bt⟩ (next + 1)
+          (lowerS (⟨.ite, next + 1, h - 1, arity bt⟩ :: fs) (h - 1)
+            (lowerS (⟨.ite, next + 1, h - 1, arity bt⟩ :: fs) (h - 1) (next + 1) th).next el).h := by
+  simp only [lowerI, iteMid, iteTail]
+  cases (lowerS (⟨.ite, next + 1, h - 1, arity bt⟩ :: fs) (h - 1) (next + 1) th).h <;>
+    cases (lowerS (⟨.ite, next + 1, h - 1, arity bt⟩ :: fs) (h - 1)
+      (lowerS (⟨.ite, next + 1, h - 1, arity bt⟩ :: fs) (h - 1) (next + 1) th).next el).h <;> rfl
+
+def loopTail (F : Fr) (id : Nat) (rh : Option Nat) : List SymOp :=
+  match rh with
+  | some h' => emitDrop (dropRange F true h')
+  | none => [.label ⟨.cont, id⟩]
+
+theorem lowerI_loop (fs : List Fr) (h next : Nat) (bt : Option Ty) (body : List FI) :
+    (lowerI fs h next (.loop bt body)).ops =
+      [.br ⟨.header, next + 1⟩, .label ⟨.header, next + 1⟩] ++
+        (lowerS (⟨.loop, next + 1, h, arity bt⟩ :: fs) h (next + 1) body).ops ++
+        loopTail ⟨.loop, next + 1, h, arity bt⟩ (next + 1)
+          (lowerS (⟨.loop, next + 1, h, arity bt⟩ :: fs) h (next + 1) body).h := by
+  simp only [lowerI, loopTail]
+  cases (lowerS (⟨.loop, next + 1, h, arity bt⟩ :: fs) h (next + 1) body).h <;> rfl
+
+
 end Wz.Proofs.FlatLower
